@@ -44,13 +44,13 @@ theorem C12_nothing_else (sf : SpokFile) (cwd : Str) (fs : FS) : (runClean sf cw
   · rw [(runClean_ok h).2.2.1]; exact List.filter_sublist
   · rw [(runClean_err_fs sf cwd fs h).1]; exact List.Sublist.refl _
 
-/-- **exactness is not vacuous**: whenever no designated path is protected (and the two error sources are
-    absent) the clean succeeds — and then `C12_exact` applies. -/
+/-- **exactness is not vacuous**: whenever every named output is defined and no designated path is
+    protected the clean succeeds (a designated path below a regular file is simply absent: repair 85950c0) — and then `C12_exact` applies. -/
 theorem C12_exact_succeeds (sf : SpokFile) (cwd : Str) (fs : FS)
     (hdef : ∀ t ∈ sf.tasks, ∀ n ∈ t.namedOutputs, ∃ v, lookupVar sf.vars n = some v)
-    (hstat : ∀ d ∈ designatedList sf cwd, statErr fs (pathOf d) = false)
     (hsafe : ∀ d ∈ designatedList sf cwd, containsSpokfile d sf.path = false) :
     (runClean sf cwd fs).err = none := by
+  have hstat : ∀ d ∈ designatedList sf cwd, statErr fs (pathOf d) = false := fun _ _ => rfl
   unfold runClean
   rw [targets_total hdef hstat]
   have : (designatedList sf cwd).find? (fun t => containsSpokfile t sf.path) = none := by
@@ -130,11 +130,10 @@ theorem C12_user_clean (sf : SpokFile) (cwd : Str) (fs : FS) (run : FS → FS ×
 
 /-- Whatever the model does is accepted by the executable judge `c12` (which the check run applies to what
     the *real binary* did) — under the hypotheses the judged part of the case space satisfies: absolute
-    directories, no `os.Stat` failure of the ENOTDIR kind, and a clean task that only prints (the run keeps every
+    directories and a clean task that only prints (the run keeps every
     entry and adds at most the cache directory). -/
 theorem C12_judge_accepts_model (sf : SpokFile) (cwd : Str) (fs : FS) (run : FS → FS × Bool)
     (hd : isAbs sf.dir = true) (hc : isAbs cwd = true)
-    (hstat : ∀ d ∈ designatedList sf cwd, statErr fs (pathOf d) = false)
     (hrun : (run fs).2 = true ∧ (∀ e ∈ fs, e ∈ (run fs).1) ∧ ∀ e ∈ (run fs).1, e ∈ fs ∨ e.1 = pathOf sf.cacheDir) :
     c12 sf cwd (obsOfModel sf cwd fs run (sf.hasTask cleanName)) ≠ some false := by
   by_cases hclean : sf.hasTask cleanName = true
@@ -173,7 +172,7 @@ theorem C12_judge_accepts_model (sf : SpokFile) (cwd : Str) (fs : FS) (run : FS 
           rw [containsSpokfile_designated hd hc (mem_designatedList.1 hdm)]
           simp only [List.any_eq_true, not_exists, not_and] at hany
           simpa using hany d hdm
-        have hok := C12_exact_succeeds sf cwd fs hdef hstat hsafe
+        have hok := C12_exact_succeeds sf cwd fs hdef hsafe
         rw [(runClean_ok hok).2.2.1, hok]
         simp
     · rw [if_pos (by simpa using hdefd)]
